@@ -143,6 +143,7 @@ struct TreeParams
     unsigned max_count = 3;
     unsigned max_data = 40;
     bool extend = false; // F6: wire block lengths larger than compiled
+    u64 max_boundary = 70000; // largest "boundary" extension value (127, 128, ..., 65536) that may be used
 };
 
 inline Node gen_node(const SchemaShape& sh, int level, sim::Rng& r, const TreeParams& tp, u64 wire_bl, int depth)
@@ -184,7 +185,7 @@ inline Node gen_node(const SchemaShape& sh, int level, sim::Rng& r, const TreePa
             {
                 static const u64 bounds[] = {126, 127, 128, 129, 254, 255, 256, 257, 32767, 32768, 32769};
                 const u64 b = bounds[r.below(depth == 0 ? 11 : 8)];
-                if(b > g.wire_bl) ext = b;
+                if(b > g.wire_bl && b <= tp.max_boundary) ext = b;
             }
             if(ext <= (width_mask(h.block_length.width) - 1)) g.wire_bl = ext;
         }
@@ -227,7 +228,7 @@ inline Frame gen_frame(const SchemaShape& sh, int msg, sim::Rng& r, const TreePa
         {
             static const u64 bounds[] = {127, 128, 255, 256, 32767, 32768, 65535, 65536};
             const u64 b = bounds[r.below(8)];
-            if(b > bl) ext = b;
+            if(b > bl && b <= tp.max_boundary) ext = b;
         }
         if(ext <= width_mask(sh.msg_header.block_length.width) - 1) bl = ext;
     }
